@@ -624,6 +624,12 @@ impl CraneliftCompiler {
                         };
 
                         self.set_dst(bcx, &insn, res_wide);
+                    } else if ty != I64 {
+                        // No swap needed on this host, but the conversion still truncates to its width.
+                        let src = self.insn_dst(bcx, &insn);
+                        let src_narrow = bcx.ins().ireduce(ty, src);
+                        let res_wide = bcx.ins().uextend(I64, src_narrow);
+                        self.set_dst(bcx, &insn, res_wide);
                     }
                 }
 
